@@ -98,7 +98,9 @@ class SpanActionContext(ActionContext):
                 # one span processor failing must not stop the others from creating their span
                 deep.logging.exception("Failed to create span with %s", span_processor)
                 continue
-            if span:
+            # (None means the processor declined; any span object - also one that is falsy, e.g. because it has a
+            # length - was opened and has to be closed)
+            if span is not None:
                 spans.append(span)
 
         if len(spans) > 0:
